@@ -1872,6 +1872,13 @@ class SolidityStorage(Storage):
                 base = simplify(sha3_input.arg(1))
                 if offset.size() != 256 and base.size() == 256:
                     return cls.decode(ex, base) + (offset, Z3_ZERO)
+            # the same shape with a concrete preimage (a numeral, not a concat term),
+            # so that m[k] is the same location whether k is concrete or symbolic
+            elif is_bv_value(sha3_input) and sha3_input.size() > 256:
+                size = sha3_input.size()
+                offset = simplify(Extract(size - 1, 256, sha3_input))
+                base = simplify(Extract(255, 0, sha3_input))
+                return cls.decode(ex, base) + (offset, Z3_ZERO)
         elif loc.decl().name() == "bvadd":
             #   # when len(args) == 2
             #   arg0 = cls.decode(loc.arg(0))
